@@ -11,6 +11,7 @@ import (
 	"github.com/IrineSistiana/mosproxy/verifsim/peers"
 	"github.com/IrineSistiana/mosproxy/verifsim/plan"
 	"github.com/IrineSistiana/mosproxy/verifsim/refdns"
+	"github.com/IrineSistiana/mosproxy/verifsim/vnet"
 )
 
 // refGroup is the linear-scan reference of the client-group lookup (C07).
@@ -48,6 +49,7 @@ type serialRec struct {
 	positive       bool
 	group          string // group the fetch was made for; "?" when unknown
 	groupKnown     bool
+	groups         map[string]bool // candidate groups before re-sends are considered
 }
 
 func maxTTL(rp *plan.RouterPlan) time.Duration {
@@ -155,19 +157,37 @@ func buildSerials(h *History, vs []*opView) map[string][]*serialRec {
 					groups[refGroup(h.RP, v.srcSeen)] = true
 				}
 			}
-			if len(groups) == 1 {
-				for g := range groups {
-					sr.group, sr.groupKnown = g, true
-				}
-			} else {
-				sr.group = "?"
-			}
+			sr.groups = groups
 			k := tag + "|" + r.Key
 			out[k] = append(out[k], sr)
 		}
 	}
 	for _, l := range out {
 		sort.SliceStable(l, func(i, j int) bool { return l[i].reply.At < l[j].reply.At })
+		// A query that arrives while an earlier one for the same key is still
+		// unanswered at this server may be the transport re-sending that
+		// exchange on another connection (the proxy gave the first one up):
+		// it then belongs to whoever caused the earlier one.
+		for _, a := range l {
+			cand := map[string]bool{}
+			for g := range a.groups {
+				cand[g] = true
+			}
+			for _, b := range l {
+				if b != a && b.reply.QueryAt < a.reply.QueryAt && a.reply.QueryAt < b.reply.At {
+					for g := range b.groups {
+						cand[g] = true
+					}
+				}
+			}
+			if len(cand) == 1 {
+				for g := range cand {
+					a.group, a.groupKnown = g, true
+				}
+			} else {
+				a.group = "?"
+			}
+		}
 	}
 	return out
 }
@@ -233,6 +253,27 @@ func checkCache(h *History, vs []*opView) {
 		t, ok := deliveredAt[sid(s)]
 		return ok && t <= before
 	}
+	// storedForSure: an answer that reached the proxy is in the cache, unless
+	// it is a negative one that arrived while a positive entry of the same key
+	// may have been live (an error response never displaces a live positive
+	// entry, C08): then nothing can be said.
+	storedForSure := func(list []*serialRec, s *serialRec) bool {
+		if s.positive {
+			return true
+		}
+		for _, p := range list {
+			if p == s || !p.positive || p.tc {
+				continue
+			}
+			if p.groupKnown && s.groupKnown && p.group != s.group {
+				continue
+			}
+			if p.reply.At < s.reply.At+upMax+sigma && p.reply.At+upMax+sigma+p.lifetime+2*time.Second >= s.reply.At+upMin {
+				return false
+			}
+		}
+		return true
+	}
 
 	for _, d := range ds {
 		v, m := d.v, d.m
@@ -242,6 +283,25 @@ func checkCache(h *History, vs []*opView) {
 		opKey := peers.KeyOf(v.lower, v.q.Q[0].Class, v.q.Q[0].Type)
 		myGroup := refGroup(rp, v.srcSeen)
 		list := serials[v.outcome.Forward+"|"+opKey]
+		// ---- C07 (a'): a response that carries records for another question
+		// although no upstream exchange for this operation's own question was
+		// made while it waited can only have come out of the cache, stored
+		// under this question's key.
+		if len(m.Q) == 1 && len(v.q.Q) == 1 && len(m.An)+len(m.Ns) > 0 &&
+			(!m.Q[0].Name.Lower().Equal(v.lower) || m.Q[0].Type != v.q.Q[0].Type || m.Q[0].Class != v.q.Q[0].Class) {
+			fetched := false
+			if u := h.Ups[v.outcome.Forward]; u != nil {
+				for _, q := range u.Queries {
+					if q.Decoded && q.At >= v.o.SentAt && q.At <= d.at && q.Name.Lower().Equal(v.lower) && q.Type == v.q.Q[0].Type && q.Class == v.q.Q[0].Class {
+						fetched = true
+					}
+				}
+			}
+			if !fetched {
+				h.S.Fail("C07", "hit-for-other-question", "%s asked %s type %d class %d and was served, without an upstream exchange for it, a stored response for question %s type %d class %d", name, v.q.Q[0].Name, v.q.Q[0].Type, v.q.Q[0].Class, m.Q[0].Name, m.Q[0].Type, m.Q[0].Class)
+				continue
+			}
+		}
 		if !ok {
 			continue
 		}
@@ -386,7 +446,7 @@ func checkCache(h *History, vs []*opView) {
 			// is there an entry that must be live for this client at that time?
 			var must *serialRec
 			for _, s := range list {
-				if s.tc || !s.groupKnown || s.group != myGroup || !reached(s, v.o.SentAt) {
+				if s.tc || !s.groupKnown || s.group != myGroup || !reached(s, v.o.SentAt) || !storedForSure(list, s) {
 					continue
 				}
 				stored := s.reply.At + upMax + sigma
@@ -411,6 +471,12 @@ func checkCache(h *History, vs []*opView) {
 				}
 			}
 			if got == nil {
+				continue
+			}
+			// In the last quarter of the entry's lifetime another client's hit may
+			// have started a background refresh whose result this (slowly
+			// connecting) client was then served from cache: not a miss.
+			if got.reply.QueryAt >= must.reply.At+upMin+must.lifetime*3/4-2*time.Second {
 				continue
 			}
 			if got.reply.QueryAt > v.o.SentAt+clMin-time.Millisecond && got.reply.At > v.o.SentAt {
@@ -455,6 +521,11 @@ func checkCache(h *History, vs []*opView) {
 					if g, ok := h.Ups[s.up].ConnAbandoned[s.reply.Conn]; ok && g < e {
 						e = g
 					}
+					if h.Ups[s.up].Spec.Kind == "udp" && vnet.W != nil {
+						if g, ok := vnet.W.ProxyUDPClosedAt(s.reply.Conn); ok && g < e {
+							e = g
+						}
+					}
 					return e
 				}
 				if kind := h.Ups[a.up].Spec.Kind; kind == "https" || kind == "http" || kind == "h3" || kind == "quic" {
@@ -474,7 +545,7 @@ func checkCache(h *History, vs []*opView) {
 						later = a
 					}
 					for _, s := range list {
-						if s == a || s == b || s.tc || !s.groupKnown || s.group != a.group || !reached(s, later.reply.QueryAt) {
+						if s == a || s == b || s.tc || !s.groupKnown || s.group != a.group || !reached(s, later.reply.QueryAt) || !storedForSure(list, s) {
 							continue
 						}
 						liveFrom := s.reply.At + upMax + sigma
